@@ -208,7 +208,7 @@ func c06Scope(c *mon.Ctx, r *mon.Rand) {
 	desc := map[string]interface{}{"root": rc, "program": prog, "cardinality_tags": cardTags, "reporter": kind}
 	var root tally.Scope
 	if c.Guard("panic-scope/"+kind, func() interface{} { return desc }, func() {
-		root, _ = tally.VerifNewRootScope(opts, 0, uint(r.Range(1, 4)))
+		root, _ = vNewRoot(opts, 0, uint(r.Range(0, 4)))
 		scopes := prog.clone().apply(root)
 		for i, s := range scopes {
 			if i != 0 && i != len(scopes)-1 && r.Bool() {
